@@ -43,6 +43,16 @@ def determinism_replay(variant, runs):
     return dict(failed=bool(diff), observed={'distinct_texts': diff}, expected='byte-identical')
 
 
+def pass_behaviour_replay(variant, k, seed):
+    """Replayer: one construction in a fresh process; failed iff a transformation pass changed the
+    Output traces of the design."""
+    r = _run((variant, k, seed))
+    if 'error' in r:
+        return dict(failed=False, error='subprocess failed: %s' % r['error'])
+    bad = sorted(k_ for k_, v in r['digest'].items() if k_.endswith('_preserves_outputs') and v != 'True')
+    return dict(failed=bool(bad), observed=bad, expected='outputs after the pass == outputs of the source design')
+
+
 def _ro(d):
     import traceback
     from fam import detcheck
@@ -55,7 +65,8 @@ def _ro(d):
 
 def run(ctx):
     q = ctx.tier == 'quick'
-    variants = ['tie', 'case_tie', 'pad_tie', 'blif_import', 'sani', 'memen', 'memen_samedata', 'regs_tie', 'outs_tie', 'mems_same_name', 'rom_clones']
+    variants = ['tie', 'case_tie', 'pad_tie', 'blif_import', 'sani', 'memen', 'memen_samedata', 'regs_tie', 'outs_tie', 'mems_same_name', 'rom_clones',
+                'mems_init', 'regs_same_next']
     fam = [d for d in designs.family('quick', 0) if d['name'] in
            ('mixed_alu', 'mem_two_writes', 'regs_reset', 'shared_subexp', 'rom_func', 'fanout', 'slices')]
     variants += [json.dumps(d, sort_keys=True) for d in fam]
@@ -73,6 +84,16 @@ def run(ctx):
         rs = byvar.get(v, [])
         if not rs:
             continue
+        badp = [(r['task'], k_) for r in rs for k_, val in sorted(r['digest'].items())
+                if k_.endswith('_preserves_outputs') and val != 'True']
+        if badp:
+            (t_, k_) = badp[0]
+            ctx.confirm_and_report('C20.pass_behaviour[%s|%s]' % (v[:60], k_.split('_')[0]), 'call',
+                                   dict(module='props.C20', func='pass_behaviour_replay',
+                                        kwargs=dict(variant=v, k=t_[1], seed=t_[2])),
+                                   canonical_input=dict(variant=v, gap=t_[1], hashseed=t_[2], what=k_),
+                                   function='pyrtl.passes', solver_output='%d of %d runs' % (len(badp), len(rs)),
+                                   text='a transformation pass changed the behaviour of the design in some run')
         diff = {}
         for key in sorted(rs[0]['digest']):
             groups = {}
@@ -96,7 +117,8 @@ def run(ctx):
                bound='%d designs (adversarial names: tied natural-sort keys, names needing sanitising, '
                      'write ports sharing an enable; plus family designs) x allocation gaps %s x '
                      'PYTHONHASHSEED %s, each in a fresh process; sha256 of verilog (3 reset modes), '
-                     'testbench, vcd, print_trace (2 modes), simulation trace'
+                     'testbench (memories with non-default initial contents), vcd, print_trace (2 modes), simulation trace, '
+                     'Output traces after optimize() and synthesize() (equal across runs and equal to the source)'
                      % (len(variants), ks, seeds), sample=dict(variant=variants[0], k=ks[1], hashseed=seeds[0]))
     # read-only-ness
     rfam = [d for d in designs.family('quick', ctx.seed) if d['name'] != 'rand_design' or d['params']['seed'] % 4 == 0]
